@@ -664,7 +664,7 @@ def r6(repo, chk):
     chk.ob("R6", f"apply_key_phase carries {sorted(need)} over to the live context", need <= copied, f"copies only {sorted(copied)}: the next key update would derive from stale state and diverge from the peer", ak.loc(ak.node))
     chk.ob("R6", "apply_key_phase leaves the header-protection key alone (RFC 9001 6: not updated)", "hp" not in copied, "", ak.loc(ak.node))
     uk = Fn(repo, "quic.crypto:CryptoPair._update_key")
-    calls = [norm(c) for c in uk.calls(name="apply_key_phase")]
+    calls = [uk.expand(c, 2) for c in uk.calls(name="apply_key_phase")]
     ok = sorted(calls) == sorted(["apply_key_phase(self.recv, next_key_phase(self.recv), trigger=trigger)", "apply_key_phase(self.send, next_key_phase(self.send), trigger=trigger)"])
     chk.ob("R6", "_update_key advances both directions, each from its own context", ok, f"{calls}", uk.loc(uk.node))
     dp = Fn(repo, "quic.crypto:CryptoContext.decrypt_packet")
